@@ -49,7 +49,7 @@ CONFIG = {
                  "reach:_get_a_new_atomic_proposition_for:f_atom = '[{}({})]'.format(f_str, i)",
                  'shape:nested_quantifier', 'shape:non_ctl', 'shape:ctl',
                  'style:text', 'inner:LTL', 'inner:CTL',
-                 'labels:spell_fresh_atoms'],
+                 'labels:spell_fresh_atoms', 'history:mutation'],
     'rule': ('cases = (Kripke structure, CTL* state formula, presentation '
              'style); a systematic family of ~700 A/E formulas over Boolean/'
              'temporal combinations of depth <=2 and one level of nested '
@@ -239,6 +239,22 @@ def collision_cases():
             out.append((nk, ('E', ('F', ('and', ('not', Ag), Eg)))))
             out.append((nk, ('A', ('G', ('imply', Eg, Ag)))))
             out.append((nk, ('E', ('U', Eg, Ag))))
+    # E g next to A not g (and A g next to E not g) for non-CTL g: the two
+    # are complements of each other and easy to mix up in any bookkeeping
+    nong = [('F', ('G', p)), ('G', ('F', p)), ('X', ('X', q)),
+            ('U', p, ('X', q)), ('and', ('F', p), ('G', q)),
+            ('or', ('G', p), ('X', q))]
+    for g in nong:
+        ng = ('not', g)
+        for nk in shapes2:
+            Eg, Ang = ('E', g), ('A', ng)
+            Ag, Eng = ('A', g), ('E', ng)
+            out.append((nk, ('and', Eg, ('not', Ang))))
+            out.append((nk, ('A', ('G', ('imply', Eg, ('A', ('X', ('not',
+                                                                    Ang))))))))
+            out.append((nk, ('or', ('and', Ag, Eng), ('and', Eg, Ang))))
+            out.append((nk, ('E', ('F', ('and', Ang, ('E', ('X', Eg)))))))
+            out.append((nk, ('imply', Ang, ('not', Eg))))
     # three levels of quantifiers with temporal operators in between
     r3_ = gen.rng(0, PROP, 'nest3')
     tops = [lambda x: ('F', x), lambda x: ('G', x), lambda x: ('X', x),
@@ -342,6 +358,37 @@ def run(ctx):
         if ctx.mine(k):
             run_case(nk, t, 0)     # object style: fresh names from str(f)
             run_case(nk, t, 2)
+    # one structure queried, modified in place, queried again
+    from pyModelChecking import CTLS as _CTLS
+    for h in range(60 if ctx.quick else 2000):
+        rr = gen.rng(ctx.seed, PROP, ('mut', h))
+        if not ctx.mine(h):
+            continue
+        LOG.sig['history:mutation'] += 1
+        nk = gen.random_structure(rr, 4, atoms=('p', 'q'), nmin=2)
+        K = mcwork.kripke_of(nk)
+        forms = [('A', ('F', ('G', ('ap', 'p')))),
+                 ('E', ('G', ('F', ('ap', 'q')))),
+                 ('A', ('G', ('E', ('X', ('ap', 'p'))))),
+                 gen.random_ctls_state(rr, 3, ('p', 'q'), qdepth=2)]
+        for step in range(4):
+            for t in rr.sample(forms, 2):
+                try:
+                    _CTLS.modelcheck(K, mcwork.formula_arg('CTLS', t, 'obj'))
+                except Exception:
+                    pass
+            sts = list(K.states())
+            s_ = rr.choice(sts)
+            if rr.random() < 0.6:
+                atom = rr.choice(['p', 'q'])
+                if atom in K.labels(s_):
+                    K.labels(s_).discard(atom)
+                else:
+                    K.labels(s_).add(atom)
+            else:
+                d = rr.choice(sts)
+                if d not in K.next(s_):
+                    K.add_edge(s_, d)
     for k in range(nrandom):
         nk = gen.random_structure(r, 5)
         t = gen.random_ctls_state(r, r.randint(2, 4),
